@@ -109,6 +109,7 @@ func assignForms() []Form {
 
 func dataForms() []Form {
 	return []Form{
+		f("elided_ptr_literal", "ps := []*S2{{a: 4}}\npq := ps[0]\npq.a = pq.a + x\nr = ps[0].a"),
 		f("append_one", "xs = append(xs, x)"), f("append_two", "xs = append(xs, x)\nxs = append(xs, y)"),
 		f("append_spread", "ys := make([]uint64, 2)\nys[0] = 7\nxs = append(xs, ys...)"),
 		f("append_to_nil", "var zsl []uint64\nzsl = append(zsl, x)\nr = zsl[0] + uint64(len(zsl))"),
